@@ -336,6 +336,12 @@ def build():
     add("persistent/CdrLevenshtein_weighted", "pure", lambda: dict(a=_df()), lambda a: _PERSIST["cdr"].calc_pdist_vector(a["a"]))
     add("persistent/WeightedLevenshtein", "pure", lambda: dict(a=list(SEQS), b=list(SEQS2)), lambda a: _PERSIST["wlev"].calc_cdist_matrix(a["a"], a["b"]))
     add("persistent/BetaCdr3Levenshtein_weighted", "pure", lambda: dict(a=_df()), lambda a: _PERSIST["beta"].calc_pdist_vector(a["a"]))
+    # ---- one long-lived array searched again and again with other options and several workers (a repertoire kept in memory): every
+    #      call answers with ITS options, whatever worker pools or parameter blocks earlier calls on the same object left behind
+    _PERSIST.setdefault("arr", np.array(SEQS + ["CAWSVGNTF", "CASSLGAYEQYF"], dtype=object))
+    add("persistent/kdtree_same_array/k1", "kd", dict, lambda a: triplets(prs.kdtree(_PERSIST["arr"], max_edits=1, n_cpu=2)), slow=True)
+    add("persistent/kdtree_same_array/k2", "kd", dict, lambda a: triplets(prs.kdtree(_PERSIST["arr"], max_edits=2, n_cpu=2)), slow=True)
+    add("persistent/kdtree_same_array/k2_one_return", "kd", dict, lambda a: len(prs.kdtree(_PERSIST["arr"], max_edits=2, max_returns=1, n_cpu=2)), slow=True)
     add("pcDelta/table_default_metric", "pure", lambda: dict(df=_df()), lambda a: prs.pcDelta(a["df"], bins=[0, 1, 2, 5, 30]))
     # ---- sentinels: values that exist only under the default IEEE / NumPy error handling (inf, nan); a call that leaves the
     #      process-wide floating-point error state or similar settings changed shows here
